@@ -66,7 +66,7 @@ def rule_a(repo, chk):
             par = getattr(c, '_parent', None)
             if not (isinstance(par, FUNC_TYPES) and c in par.decorator_list):
                 chk.ob('C08.a', False, c, 'time cache factory `%s` is applied outside a decorator position (untracked store)' % short(c, 50))
-    chk.floor('C08.a', k, 2, '(time cache uses)')
+    chk.floor('C08.a', k, 1, '(time cache uses)')
     # mutable default arguments are stores as well
     for _, q, f in repo.funcs:
         a = f.args
